@@ -521,3 +521,8 @@ SUBS.append(Sub("cli_traj", _c15.sub_traj, _c15.make_st_case(
     downsample=st.sampled_from([None, 2, 7, 100]), mf=st.sampled_from([None, [0.5, 5.0], [0.0, 0.0], [5.0, 20.0], [1.0, 400.0]]),
     tf=st.none(), align_mode=st.just("none"), correct_scale=st.just(False), project=st.none()), 400, 10000,
     nontrivial=lambda c: any(c["opts"].get(k) for k in ("downsample", "motion_filter", "merge")), shards_quick=4))
+
+# ---- time cropping requested through evo_ape (--t_start / --t_end, one- and two-sided) ------------------------------------
+from vf.checks import c01 as _c01
+SUBS.append(Sub("cli_crop", _c01.sub_cli, _c01.st_cli(force_crop=True), 250, 8000,
+                nontrivial=lambda c: c["opts"].get("t_start") is not None or c["opts"].get("t_end") is not None, shards_quick=4))
